@@ -685,7 +685,7 @@ theorem w_property {i : Bool} {e : Elem} {c : Char} {cs : Str} :
   refine ⟨?_, ?_, ?_⟩ <;> intro h <;> simp only [writeAttrs, List.mem_append]
   · left; left; right; rw [h]; exact mem_optAttr _ _ _
   · left; right; rw [h]; exact mem_optAttr _ _ _
-  · right; rw [h]; exact mem_optAttr _ _ _
+  · right; rw [h]; exact mem_someAttr _ _
 
 theorem w_signal {i : Bool} {e : Elem} {c : Char} {cs : Str} (h : e.emitter = some (c :: cs)) :
     ("emitter".toList, c :: cs) ∈ writeAttrs .signal i e none none := by
